@@ -8,6 +8,11 @@ Written from the EDIF 2 0 0 netlist-view grammar and the property text (C05), no
   (instance nameDef (viewRef view (cellRef cell [(libraryRef lib)])) {property|comment})
   (net nameDef (joined {(portRef name | (member name k) [(instanceRef inst)])}))
   (property nameDef (string "s") | (integer n) | (boolean (true)|(false)) [(owner "o")])
+  (comment {"s"})  in edif, keywordMap, status, written, library, cell, view, interface, port, contents, instance, net, design
+  (status {(written (timeStamp y m d h m s) {(author "a") | (program "p" [(version "v")]) | property | comment}) | comment})
+       in edif, library, cell, view, design
+Not written (outside the subset the reader documents or implements): comment inside technology / property, userData, dataOrigin,
+multi-valued (string ..) / (integer ..), (number ..), several views per cell, array nets.
 Identifiers are case-insensitive, cells are defined before they are referenced, buses are written bit by bit as
 (rename id_i_ "name[i]") in any order, empty bits may be left out.
 
@@ -22,7 +27,20 @@ style (chosen from the seed; JSON-able, part of the replay):
   array1          probability that a 1-bit port is declared (array p 1)
   view            'netlist' | 'cell' | 'odd'
   libref          'always' | 'omit-same'
-  comments        probability of a (comment "...") at each legal place
+  comments        probability of a (comment ...) at each place the style uses
+  comment_strings 'one': every comment holds exactly one string | 'varied': zero to three (comment ::= (comment {string}))
+  comment_places  'classic': between libraries / cells / ports / instances / nets and after an instance property |
+                  'all': also inside status and written, directly inside cell, view, port, instance (with or without properties)
+                  and net, inside design, and after the last item of edif, library, interface and contents
+  status          'classic': absent or one fixed (status (written timeStamp program+version comment)) before the libraries |
+                  'varied': absent, empty, comment only, written with only a timeStamp / author / program without version / all of
+                  them in any order / a property, two written, anywhere among the libraries (after the design when design_pos is free)
+  optional        probability of each optional construct that carries no structure: status inside library / cell / view / design,
+                  properties (string / integer / boolean, renamed, with owner) on cell, view, interface, port, net and written,
+                  (designator ..) in an interface, a (scale ..) inside numberDefinition, cellType TIE / RIPPER on a leaf cell
+  nodir           probability that a port is declared without (direction ..)  (then its direction is UNDEFINED)
+  design_pos      'last' | 'free': the design stands anywhere after the library of its cell; libraries, comments, status may follow
+  keywordmap_comment   a comment inside keywordMap  (keywordMap ::= (keywordMap keywordLevel {comment}))
   layout          'pretty' | 'dense'
   external        the first (primitive) library is written as (external ...)
   design_props    properties inside (design ...)
@@ -34,17 +52,24 @@ KW = ['edif', 'edifVersion', 'edifLevel', 'keywordMap', 'keywordLevel', 'status'
       'library', 'external', 'technology', 'numberDefinition', 'cell', 'cellType', 'view', 'viewType', 'interface', 'port', 'array',
       'direction', 'contents', 'instance', 'viewRef', 'cellRef', 'libraryRef', 'net', 'joined', 'portRef', 'member', 'instanceRef',
       'property', 'string', 'integer', 'boolean', 'true', 'false', 'owner', 'rename', 'design', 'comment', 'GENERIC', 'NETLIST',
-      'INPUT', 'OUTPUT', 'INOUT']
+      'INPUT', 'OUTPUT', 'INOUT', 'author', 'scale', 'e', 'unit', 'TIME', 'designator', 'TIE', 'RIPPER']
 
 
 def make_style(seed, variant=0):
     r = random.Random('edif-style:%s:%s' % (seed, variant))
-    return {'seed': r.randint(0, 10 ** 9), 'ids': r.choice(['natural', 'natural', 'amp', 'opaque', 'always']),
+    style = {'seed': r.randint(0, 10 ** 9), 'ids': r.choice(['natural', 'natural', 'amp', 'opaque', 'always']),
             'ref_case': r.choice(['same', 'same', 'lower', 'upper', 'swap', 'mixed']), 'kw_case': r.choice(['lower', 'camel', 'camel', 'upper']),
             'bit_order': r.choice(['asc', 'desc', 'shuffle', 'interleave']), 'omit_empty': r.choice([0, 0.3, 0.7, 1.0]),
             'range_names': r.random() < 0.5, 'array1': r.choice([0, 0, 0.3]), 'view': r.choice(['netlist', 'cell', 'odd']),
             'libref': r.choice(['always', 'always', 'omit-same']), 'comments': r.choice([0, 0.1, 0.3]), 'layout': r.choice(['pretty', 'dense']),
             'external': r.random() < 0.15, 'design_props': r.random() < 0.4, 'lib_order': 'topo-random', 'cell_order': 'topo-random'}
+    # newer keys, drawn from a generator of their own so that the keys above stay what they were for a given (seed, variant);
+    # a style without them (older replay files) is rendered the way it always was
+    r2 = random.Random('edif-style2:%s:%s' % (seed, variant))
+    style.update({'comment_strings': r2.choice(['one', 'varied', 'varied']), 'comment_places': r2.choice(['classic', 'all', 'all']),
+                  'status': r2.choice(['classic', 'varied', 'varied']), 'optional': r2.choice([0, 0.15, 0.3]), 'nodir': r2.choice([0, 0, 0, 0.2]),
+                  'design_pos': r2.choice(['last'] * 7 + ['free']), 'keywordmap_comment': r2.random() < 0.04})
+    return style
 
 
 def legal(name):
@@ -63,6 +88,9 @@ class Plan:
         self.design_id = self.ident(ad['top_instance_name'], set())
         self.lib = {}; self.cell = {}; self.port = {}; self.inst = {}; self.cable = {}; self.prop = {}
         self.omit = set(); self.arr1 = set(); self.portname = {}
+        self.nodir = set()                     # ports declared without (direction ..): the direction is optional in EDIF 2 0 0
+        r2 = random.Random('edif-plan2:%s' % style['seed'])
+        self.comments = {}; self.after_design = []; self.flags = set()      # filled in by the Writer
         used_l = set()
         for l in ad['libraries']:
             self.lib[l['name']] = self.ident(l['name'], used_l)
@@ -80,6 +108,8 @@ class Plan:
                     self.portname[key + (p['name'],)] = wn
                     if p['width'] == 1 and r.random() < style['array1']:
                         self.arr1.add(key + (p['name'],))
+                    if style.get('nodir') and r2.random() < style['nodir']:
+                        self.nodir.add(key + (p['name'],))
                 used_i = set()
                 for i in d['instances']:
                     self.inst[key + (i['name'],)] = self.ident(i['name'], used_i)
@@ -131,13 +161,27 @@ class Plan:
         return all((cand + s).lower() not in used for s in reserve)
 
 
+CSTR = ['generated', 'a (nested) looking ) comment', 'x', 'Reference To The Cell', '', '(net n (joined))', 'comment', ' two  spaces ', '1 2 3',
+        "it's", 'a;b,c', 'rename', ')', '((', 'line 1']
+NL = ('netlist',)
+
+
 class Writer:
     def __init__(self, ad, style, plan=None):
         self.ad, self.style = ad, style
         self.plan = plan or Plan(ad, style)
         self.r = random.Random('edif-render:%s' % style['seed'])
+        self.x = random.Random('edif-render2:%s' % style['seed'])      # draws of the newer style keys (old styles never touch it)
         self.out = []
         self.idx = {(l['name'], d['name']): d for l in ad['libraries'] for d in l['definitions']}
+        self.all_places = style.get('comment_places', 'classic') == 'all'
+        self.optional = style.get('optional', 0)
+        self.design_done = False
+        # what the text says beyond the structure: owner -> {'direct': [[str..]..] comments written directly inside the owner's own
+        # construct, in order; 'nested': comments inside its status / written / keywordMap / view / interface / contents}
+        self.plan.comments = {}
+        self.plan.after_design = []          # what the text has after the (design ...) construct
+        self.plan.flags = set()              # 'keywordmap-comment'
 
     # -------------------------------------------------------------- lexical helpers
     def kw(self, k):
@@ -160,14 +204,90 @@ class Writer:
         return '(%s %s "%s")' % (self.kw('rename'), ident, name)
 
     def emit(self, depth, text):
+        if not text:
+            return
         if self.style['layout'] == 'pretty':
             self.out.append('  ' * depth + text + '\n')
         else:
             self.out.append(text + self.r.choice([' ', '\n', '\t ', '']) if not text.endswith('"') else text + ' ')
 
-    def comment(self, depth):
-        if self.r.random() < self.style['comments']:
-            self.emit(depth, '(%s "%s")' % (self.kw('comment'), self.r.choice(['generated', 'a (nested) looking ) comment', 'x', 'Reference To The Cell', ''])))
+    # -------------------------------------------------------------- comments, status, optional constructs
+    def note(self, owner, direct, strings):
+        if self.design_done and owner == NL:
+            self.plan.after_design.append('comment')
+        if owner is not None:
+            self.plan.comments.setdefault(owner, {'direct': [], 'nested': []})['direct' if direct else 'nested'].append(list(strings))
+
+    def strings(self):
+        """the strings of one comment: exactly one (style comment_strings 'one') or zero to three"""
+        if self.style.get('comment_strings', 'one') == 'one':
+            return [self.r.choice(['generated', 'a (nested) looking ) comment', 'x', 'Reference To The Cell', ''])]
+        return [self.x.choice(CSTR) for _ in range(self.x.choice([0, 1, 1, 2, 2, 3]))]
+
+    def comment_form(self, owner, direct, strings):
+        self.note(owner, direct, strings)
+        return '(%s%s)' % (self.kw('comment'), ''.join(' "%s"' % s for s in strings))
+
+    def comment_text(self, owner=None, direct=True, extra=False):
+        """'' or a comment construct.  owner: the object the comment belongs to (None: nothing is expected of it), direct: written
+        directly inside the owner's construct.  extra: one of the places only the style comment_places 'all' uses."""
+        if extra and not self.all_places:
+            return ''
+        if self.r.random() >= self.style['comments']:
+            return ''
+        return self.comment_form(owner, direct, self.strings())
+
+    def comment(self, depth, owner=None, direct=True, extra=False):
+        self.emit(depth, self.comment_text(owner, direct, extra))
+
+    def opt(self, p=1.0):
+        return self.optional > 0 and self.x.random() < self.optional * p
+
+    def prop_text(self):
+        """a property on something other than an instance (cell, view, interface, port, net, written): must not disturb the reader"""
+        kw, x = self.kw, self.x
+        nd = x.choice(['LOC', 'KEEP', 'weight', 'X_INTERFACE_INFO', '(%s a_b "a.b")' % kw('rename')])
+        tv = x.choice(['(%s "")' % kw('string'), '(%s "xilinx.com:signal:clock:1.0 clk CLK")' % kw('string'), '(%s 3)' % kw('integer'), '(%s -1)' % kw('integer'),
+                       '(%s (%s))' % (kw('boolean'), kw('true')), '(%s (%s))' % (kw('boolean'), kw('false'))])
+        own = ' (%s "Xilinx")' % kw('owner') if x.random() < 0.3 else ''
+        return '(%s %s %s%s)' % (kw('property'), nd, tv, own)
+
+    def status_text(self, owner, shapes=None):
+        """a (status ...) construct in one of the shapes the grammar allows:
+        status ::= (status {written | comment}),  written ::= (written timeStamp {author | program | property | comment}),
+        program ::= (program string [version])"""
+        kw, x = self.kw, self.x
+        shape = x.choice(shapes or ['empty', 'comment-only', 'ts', 'author', 'program', 'program-version', 'full', 'two-written', 'property', 'comments'])
+        ts = '(%s %d %d %d %d %d %d)' % (kw('timeStamp'), x.randint(1990, 2030), x.randint(1, 12), x.randint(1, 28), x.randint(0, 23), x.randint(0, 59), x.randint(0, 59))
+        au = '(%s "%s")' % (kw('author'), x.choice(['me', '', 'A. N. Other']))
+        pg = '(%s "%s")' % (kw('program'), x.choice(['indep', 'Vivado', '']))
+        pv = '(%s "indep" (%s "%s"))' % (kw('program'), kw('version'), x.choice(['1.0', '2024.1', '']))
+
+        def cm():
+            return self.comment_form(owner, False, self.strings())
+        if shape == 'empty':
+            body = []
+        elif shape == 'comment-only':
+            body = [cm()]
+        elif shape == 'ts':
+            body = ['(%s %s)' % (kw('written'), ts)]
+        elif shape == 'author':
+            body = ['(%s %s %s)' % (kw('written'), ts, au)]
+        elif shape == 'program':
+            body = ['(%s %s %s)' % (kw('written'), ts, pg)]
+        elif shape == 'program-version':
+            body = ['(%s %s %s)' % (kw('written'), ts, pv)]
+        elif shape == 'full':
+            parts = [au, pv, cm()]
+            x.shuffle(parts)
+            body = ['(%s %s %s)' % (kw('written'), ts, ' '.join(parts))]
+        elif shape == 'two-written':
+            body = ['(%s %s %s)' % (kw('written'), ts, au), cm(), '(%s %s %s %s)' % (kw('written'), ts, pg, cm())]
+        elif shape == 'property':
+            body = ['(%s %s %s %s)' % (kw('written'), ts, self.prop_text(), cm())]
+        else:
+            body = [cm(), '(%s %s %s %s %s)' % (kw('written'), ts, cm(), pv, cm()), cm()]
+        return '(%s%s)' % (kw('status'), ''.join(' ' + b for b in body))
 
     # -------------------------------------------------------------- structure
     def topo(self, items, deps):
@@ -181,41 +301,93 @@ class Writer:
         return out
 
     def render(self):
-        ad, P, kw = self.ad, self.plan, self.kw
+        ad, P, kw, st = self.ad, self.plan, self.kw, self.style
         self.emit(0, '(%s %s' % (kw('edif'), self.namedef(P.netlist_id, ad['name'])))
         self.emit(1, '(%s 2 0 0)' % kw('edifVersion'))
         self.emit(1, '(%s 0)' % kw('edifLevel'))
-        self.emit(1, '(%s (%s 0))' % (kw('keywordMap'), kw('keywordLevel')))
-        if self.r.random() < 0.6:
-            self.emit(1, '(%s (%s (%s 2024 1 2 3 4 5) (%s "indep" (%s "1.0")) (%s "independent writer")))' % (
-                kw('status'), kw('written'), kw('timeStamp'), kw('program'), kw('version'), kw('comment')))
+        if st.get('keywordmap_comment'):
+            # keywordMap ::= (keywordMap keywordLevel {comment})
+            P.flags.add('keywordmap-comment')
+            self.emit(1, '(%s (%s 0) %s)' % (kw('keywordMap'), kw('keywordLevel'), self.comment_form(NL, False, self.strings())))
+        else:
+            self.emit(1, '(%s (%s 0))' % (kw('keywordMap'), kw('keywordLevel')))
+        varied = st.get('status', 'classic') == 'varied'
+        free = st.get('design_pos', 'last') == 'free'
+        status, status_at = None, 0
+        if not varied:
+            if self.r.random() < 0.6:
+                self.emit(1, '(%s (%s (%s 2024 1 2 3 4 5) (%s "indep" (%s "1.0")) (%s "independent writer")))' % (
+                    kw('status'), kw('written'), kw('timeStamp'), kw('program'), kw('version'), kw('comment')))
+                self.note(NL, False, ['independent writer'])
         libnames = [l['name'] for l in ad['libraries']]
         libdeps = {l['name']: set(i['ref'][0] for d in l['definitions'] for i in d['instances'] if i['ref'][0] != l['name']) for l in ad['libraries']}
-        first = True
-        for ln in self.topo(libnames, lambda x: libdeps[x]):
-            self.comment(1)
-            self.library([l for l in ad['libraries'] if l['name'] == ln][0], external=self.style['external'] and ln == libnames[0])
-        self.comment(1)
+        order = self.topo(libnames, lambda x: libdeps[x])
         top = tuple(ad['top'])
-        self.emit(1, '(%s %s' % (kw('design'), self.namedef(P.design_id, ad['top_instance_name'])))
-        self.emit(2, '(%s %s (%s %s))' % (kw('cellRef'), self.ref(P.cell[top]), kw('libraryRef'), self.ref(P.lib[top[0]])))
-        if self.style['design_props']:
-            self.emit(2, '(%s part (%s "xc7a100tcsg324-1"))' % (kw('property'), kw('string')))
-            self.emit(2, '(%s (%s XLNX_PROJ_DIR "XLNX.PROJ/DIR") (%s "C:/x y/z"))' % (kw('property'), kw('rename'), kw('string')))
-        self.emit(1, ')')
+        # edif ::= (edif name edifVersion edifLevel keywordMap {status | external | library | design | comment}): the design may
+        # stand anywhere after the library of the cell it names, the status anywhere
+        design_at = len(order)
+        if free:
+            design_at = self.x.randint(order.index(top[0]) + 1, len(order))
+        if varied and self.x.random() < 0.8:
+            status_at = self.x.choice([0, 0, self.x.randint(0, len(order)), len(order) + 1 if free else 0])
+            status = True
+        for k, ln in enumerate(order + [None]):
+            if status and status_at == k:
+                if self.design_done:
+                    P.after_design.append('status')
+                self.emit(1, self.status_text(NL)); status = None
+            if k == design_at:
+                self.comment(1, NL)
+                self.design(top)
+            if ln is not None:
+                self.comment(1, NL)
+                if self.design_done:
+                    P.after_design.append('library ' + ln)
+                self.library([l for l in ad['libraries'] if l['name'] == ln][0], external=self.style['external'] and ln == libnames[0])
+        if free:
+            self.comment(1, NL, extra=True)
+            if status:
+                P.after_design.append('status')
+                self.emit(1, self.status_text(NL))
+            self.comment(1, NL, extra=True)
         self.emit(0, ')')
         return ''.join(self.out)
 
+    def design(self, top):
+        P, kw = self.plan, self.kw
+        self.emit(1, '(%s %s' % (kw('design'), self.namedef(P.design_id, self.ad['top_instance_name'])))
+        self.emit(2, '(%s %s (%s %s))' % (kw('cellRef'), self.ref(P.cell[top]), kw('libraryRef'), self.ref(P.lib[top[0]])))
+        # design ::= (design name cellRef {status | property | comment})
+        self.comment(2, None, extra=True)
+        if self.opt():
+            self.emit(2, self.status_text(None))
+        if self.style['design_props']:
+            self.emit(2, '(%s part (%s "xc7a100tcsg324-1"))' % (kw('property'), kw('string')))
+            self.comment(2, None, extra=True)
+            self.emit(2, '(%s (%s XLNX_PROJ_DIR "XLNX.PROJ/DIR") (%s "C:/x y/z"))' % (kw('property'), kw('rename'), kw('string')))
+        self.emit(1, ')')
+        self.design_done = True
+
     def library(self, l, external=False):
         P, kw = self.plan, self.kw
+        owner = ('lib', l['name'])
         self.emit(1, '(%s %s' % (kw('external' if external else 'library'), self.namedef(P.lib[l['name']], l['name'])))
         self.emit(2, '(%s 0)' % kw('edifLevel'))
-        self.emit(2, '(%s (%s))' % (kw('technology'), kw('numberDefinition')))
+        nd = ' (%s 1 (%s 1 -12) (%s %s))' % (kw('scale'), kw('e'), kw('unit'), kw('TIME')) if self.opt() else ''
+        self.emit(2, '(%s (%s%s))' % (kw('technology'), kw('numberDefinition'), nd))
+        # library ::= (library name edifLevel technology {status | cell | comment})
         names = [d['name'] for d in l['definitions']]
         deps = {d['name']: set(i['ref'][1] for i in d['instances'] if i['ref'][0] == l['name']) for d in l['definitions']}
-        for dn in self.topo(names, lambda x: deps[x]):
-            self.comment(2)
+        order = self.topo(names, lambda x: deps[x])
+        status_at = self.x.randint(0, len(order)) if self.opt() else None
+        for k, dn in enumerate(order):
+            if status_at == k:
+                self.emit(2, self.status_text(owner))
+            self.comment(2, owner)
             self.cell(l['name'], self.idx[(l['name'], dn)])
+        if status_at == len(order):
+            self.emit(2, self.status_text(owner))
+        self.comment(2, owner, extra=True)
         self.emit(1, ')')
 
     def viewname(self, key):
@@ -229,41 +401,90 @@ class Writer:
     def cell(self, ln, d):
         P, kw = self.plan, self.kw
         key = (ln, d['name'])
-        self.emit(2, '(%s %s (%s %s)' % (kw('cell'), self.namedef(P.cell[key], d['name']), kw('cellType'), kw('GENERIC')))
+        owner = ('cell',) + key
+        leaf = not (d['cables'] or d['instances'])
+        ct = self.x.choice(['TIE', 'RIPPER']) if leaf and self.opt(0.3) else 'GENERIC'
+        # cell ::= (cell name cellType {status | view | property | comment})
+        self.emit(2, '(%s %s (%s %s)' % (kw('cell'), self.namedef(P.cell[key], d['name']), kw('cellType'), kw(ct)))
+        self.comment(3, owner, extra=True)
+        late_status = self.x.random() < 0.5
+        if self.opt() and not late_status:
+            self.emit(3, self.status_text(owner))
+        if self.opt():
+            self.emit(3, self.prop_text())
+        # view ::= (view name viewType interface {status | contents | comment | property})
         self.emit(3, '(%s %s (%s %s)' % (kw('view'), self.viewname(key), kw('viewType'), kw('NETLIST')))
+        # interface ::= (interface {port | designator | property | comment})
         self.emit(4, '(%s' % kw('interface'))
         for p in d['ports']:
-            self.comment(5)
-            pk = key + (p['name'],)
-            nd = self.namedef(P.port[pk], P.portname[pk])
-            if p['width'] > 1 or pk in P.arr1:
-                nd = '(%s %s %d)' % (kw('array'), nd, p['width'])
-            self.emit(5, '(%s %s (%s %s))' % (kw('port'), nd, kw('direction'), kw({'IN': 'INPUT', 'OUT': 'OUTPUT', 'INOUT': 'INOUT'}[p['direction']])))
+            self.comment(5, owner, direct=False)
+            self.port(key, p)
+        self.comment(5, owner, direct=False, extra=True)
+        if self.opt():
+            self.emit(5, '(%s "%s")' % (kw('designator'), self.x.choice(['U1', ''])))
+        if self.opt():
+            self.emit(5, self.prop_text())
+            self.comment(5, owner, direct=False, extra=True)
         self.emit(4, ')')
+        self.comment(4, owner, direct=False, extra=True)
+        if self.opt():
+            self.emit(4, self.status_text(owner))
+        if self.opt():
+            self.emit(4, self.prop_text())
         if d['cables'] or d['instances'] or self.r.random() < 0.2:
+            # contents ::= (contents {instance | net | comment}); instances must precede the nets that reference them
             self.emit(4, '(%s' % kw('contents'))
-            # instances must precede the nets that reference them; comments anywhere
             for i in d['instances']:
-                self.comment(5)
+                self.comment(5, owner, direct=False)
                 self.instance(key, i)
             for item in self.net_items(key, d):
-                self.comment(5)
+                self.comment(5, owner, direct=False)
                 self.net(key, d, *item)
+            self.comment(5, owner, direct=False, extra=True)
             self.emit(4, ')')
+        self.comment(4, owner, direct=False, extra=True)
+        if self.opt():
+            self.emit(4, self.prop_text())
         self.emit(3, ')')
+        self.comment(3, owner, extra=True)
+        if self.opt() and late_status:
+            self.emit(3, self.status_text(owner))
+        if self.opt():
+            self.emit(3, self.prop_text())
+            self.comment(3, owner, extra=True)
         self.emit(2, ')')
 
+    def port(self, key, p):
+        """port ::= (port nameDef | (array nameDef size) {direction | property | comment}); the direction is optional"""
+        P, kw = self.plan, self.kw
+        pk = key + (p['name'],)
+        owner = ('port',) + pk
+        nd = self.namedef(P.port[pk], P.portname[pk])
+        if p['width'] > 1 or pk in P.arr1:
+            nd = '(%s %s %d)' % (kw('array'), nd, p['width'])
+        parts = [self.comment_text(owner, extra=True)]
+        if pk not in P.nodir:
+            parts.append('(%s %s)' % (kw('direction'), kw({'IN': 'INPUT', 'OUT': 'OUTPUT', 'INOUT': 'INOUT'}[p['direction']])))
+        if self.opt():
+            parts.append(self.prop_text())
+        parts.append(self.comment_text(owner, extra=True))
+        self.emit(5, '(%s %s%s)' % (kw('port'), nd, ''.join(' ' + x for x in parts if x)))
+
     def instance(self, key, i):
+        """instance ::= (instance nameDef viewRef {property | comment})"""
         P, kw = self.plan, self.kw
         rk = tuple(i['ref'])
+        owner = ('inst',) + key + (i['name'],)
         lr = ' (%s %s)' % (kw('libraryRef'), self.ref(P.lib[rk[0]])) if (self.style['libref'] == 'always' or rk[0] != key[0]) else ''
         head = '(%s %s (%s %s (%s %s%s))' % (kw('instance'), self.namedef(P.inst[key + (i['name'],)], i['name']), kw('viewRef'),
                                               self.ref(self.viewname(rk)), kw('cellRef'), self.ref(P.cell[rk]), lr)
         props = i.get('properties') or {}
-        if not props:
+        first = self.comment_text(owner, extra=True)
+        if not props and not first:
             self.emit(5, head + ')')
             return
         self.emit(5, head)
+        self.emit(6, first)
         for k, v in props.items():
             if isinstance(v, bool):
                 tv = '(%s (%s))' % (kw('boolean'), kw('true' if v else 'false'))
@@ -273,7 +494,7 @@ class Writer:
                 tv = '(%s "%s")' % (kw('string'), v)
             own = ' (%s "Xilinx")' % kw('owner') if self.r.random() < 0.2 else ''
             self.emit(6, '(%s %s %s%s)' % (kw('property'), self.namedef(P.prop[key + (i['name'], k)], k), tv, own))
-            self.comment(6)
+            self.comment(6, owner)
         self.emit(5, ')')
 
     def net_items(self, key, d):
@@ -298,14 +519,17 @@ class Writer:
         return [x for p in per for x in p]
 
     def net(self, key, d, c, bit):
+        """net ::= (net nameDef joined {property | comment})"""
         P, kw = self.plan, self.kw
         cid = P.cable[key + (c['name'],)]
         if bit is None:
             nd = self.namedef(cid, c['name'])
             b = c['base']
+            owner = ('net',) + key + (c['name'],)
         else:
             nd = '(%s %s_%d_ "%s[%d]")' % (kw('rename'), cid, bit, c['name'], bit)
             b = bit
+            owner = None            # what becomes of the comments of the bits of a bus is not stated anywhere
         eps = []
         for n in d['nets']:
             if n['cable'] == c['name'] and n['bit'] == b:
@@ -327,7 +551,18 @@ class Writer:
             else:
                 pr = self.ref(P.port[pk])
             self.emit(6, '(%s %s%s)' % (kw('portRef'), pr, iref))
-        self.emit(5, '))')
+        tail = [self.comment_text(owner, extra=True)]
+        if self.opt():
+            tail.append(self.prop_text())
+            tail.append(self.comment_text(owner, extra=True))
+        tail = [t for t in tail if t]
+        if not tail:
+            self.emit(5, '))')
+        else:
+            self.emit(5, ')')
+            for t in tail:
+                self.emit(6, t)
+            self.emit(5, ')')
 
 
 def render(ad, style):
@@ -350,7 +585,7 @@ def ad_canon(ad, plan, ordered=True):
             D['portorder'] = [P.portname[key + (p['name'],)] for p in d['ports']]
             for p in d['ports']:
                 pk = key + (p['name'],)
-                D['ports'][P.portname[pk]] = {'id': P.port[pk], 'dir': p['direction'], 'width': p['width'], 'array': p['width'] > 1 or pk in P.arr1}
+                D['ports'][P.portname[pk]] = {'id': P.port[pk], 'dir': 'UNDEFINED' if pk in P.nodir else p['direction'], 'width': p['width'], 'array': p['width'] > 1 or pk in P.arr1}
             rb = {}
             for i in d['instances']:
                 props = []
